@@ -151,6 +151,22 @@ def load_known():
     return {'findings': [], 'fixed': []}
 
 
+def case_meta(c):
+    """the generated case without its protocol line, as far as JSON can hold it (the replay re-runs the oracle on it)"""
+    try:
+        return json.loads(json.dumps({k: v for k, v in c.items() if k != 'line'}, default=_meta_default))
+    except Exception:
+        return None
+
+
+def _meta_default(o):
+    if isinstance(o, hblib.F):
+        return {'__F__': o.v}
+    if isinstance(o, tuple):
+        return list(o)
+    return str(o)
+
+
 def write_replay(prop, kind, payload):
     os.makedirs(os.path.join(VERIF, 'replays'), exist_ok=True)
     h = hashlib.sha256(json.dumps(payload, sort_keys=True).encode()).hexdigest()[:12]
@@ -196,12 +212,34 @@ def main():
         rp = json.load(open(args.replay))
         lines = rp.get('cases') or ([rp['case']] if 'case' in rp else [])
         res = hblib.compare(lines)
+        again = False
         for cid, line, mo, io, eq in res:
             print('case :', hblib.describe_case(line)[:2000])
             print('model:', hblib.decode_obs(mo))
             print('impl :', hblib.decode_obs(io))
-            fails = fam.oracle(line, io, mo) if hasattr(fam, 'oracle') else None
+            def _unf(o):
+                if isinstance(o, dict):
+                    return hblib.F(o['__F__']) if set(o) == {'__F__'} else {k: _unf(v) for k, v in o.items()}
+                return [_unf(v) for v in o] if isinstance(o, list) else o
+            meta = _unf(dict(rp.get('meta') or {}))
+            meta['line'] = line
+            fails, same_obs = None, (rp.get('impl') is not None and io == rp.get('impl'))
+            if hasattr(fam, 'oracle') and rp.get('meta') is not None:
+                try:
+                    fails = fam.oracle(meta, io, mo)
+                except Exception as ex:
+                    # the stored description lost a Python type: fall back to "the implementation still answers as recorded"
+                    fails = ('recorded failure: %s' % rp.get('what')) if same_obs and rp.get('kind') == 'oracle-failure' else None
+            elif rp.get('kind') == 'oracle-failure' and same_obs:
+                fails = 'recorded failure: %s' % rp.get('what')
+            if rp.get('kind') == 'oracle-failure' and not fails and same_obs and hasattr(fam, 'oracle_all'):
+                fails = 'recorded failure (a relation between several cases; the implementation still answers as recorded): %s' % rp.get('what')
             print('oracle:', fails or 'ok', '| correspondence:', 'agree' if eq else 'DISAGREE')
+            if fails or not eq:
+                again = True
+        if again:
+            print(f'VIOLATION property={prop} replay={args.replay}')
+            sys.exit(1)
         sys.exit(0)
 
     if tier == 'thorough':
@@ -295,7 +333,7 @@ def main():
         if seen_replays < 5:
             path = write_replay(prop, 'oracle', {'kind': 'oracle-failure', 'case': c['line'],
                                                  'decoded': hblib.describe_case(c['line']),
-                                                 'what': f, 'impl': io, 'model': mo})
+                                                 'what': f, 'impl': io, 'model': mo, 'meta': case_meta(c)})
             violations.append((path, ''))
             seen_replays += 1
     reported = {c['line'] for c, _, _, _ in oracle_failures}
